@@ -4,9 +4,9 @@ import (
 	"fmt"
 	"io/ioutil"
 	"os"
+	"path/filepath"
 	"time"
 
-	"github.com/meshplus/bitxhub-model/constant"
 	"github.com/meshplus/bitxhub-model/pb"
 	"github.com/meshplus/bitxhub/verif/harness"
 )
@@ -17,35 +17,41 @@ func smoke(args []string) int {
 	dir, _ := ioutil.TempDir("", "verif.smoke.")
 	defer os.RemoveAll(dir)
 	t0 := time.Now()
-	r, err := harness.Open(dir, harness.Options{})
+	w, err := harness.BuildStandard(filepath.Join(dir, "fx"), harness.Options{})
 	if err != nil {
-		fmt.Println("open:", err)
+		fmt.Println("build:", err)
 		return 1
 	}
-	fmt.Println("opened height", r.Height(), time.Since(t0))
-	n := harness.Nonces{}
-	a0 := harness.AdminKey(0)
-	u := harness.DetKey("user-1")
-	tx := harness.TransferTx(a0, n.Next(a0.Addr), 1, u.Addr, "15000000000")
-	res, err := r.ExecBlock([]pb.Transaction{tx}, 100, nil)
+	fmt.Println("fixture height", w.R.Height(), time.Since(t0))
+	ka := harness.ChainAdmin("chainW")
+	addr, err := w.DeployRule(ka, "firstbyte")
+	fmt.Println("rule", addr, err)
+	err = w.RegisterAppchain(ka, "chainW", "ETH", addr, nil)
+	fmt.Println("register chainW:", err)
+	err = w.RegisterService(ka, "chainW", "s1", true, "")
+	fmt.Println("register svc:", err)
+	from, to := harness.FullID("chainW", "s1"), harness.FullID(harness.ChainB, "s1")
+	pier := harness.User(0)
+	res, err := w.Exec(w.IBTPTx(pier, harness.MkIBTP(from, to, 1, pb.IBTP_INTERCHAIN, 3), []byte{1, 2, 3}))
 	if err != nil {
-		fmt.Println("exec:", err)
+		fmt.Println(err)
 		return 1
 	}
-	fmt.Println("block", res.Height, res.Block.BlockHash.String(), "receipt", res.Receipts[0].Status, string(res.Receipts[0].Ret), time.Since(t0))
-	st := constant.StoreContractAddr.Address()
-	t1 := harness.BVMTx(u, n.Next(u.Addr), 2, st, "Set", pb.String("k"), pb.String("v1"))
-	t2 := harness.BVMTx(u, n.Next(u.Addr), 3, st, "Set", pb.String("k"), pb.String("v2"))
-	res, err = r.ExecBlock([]pb.Transaction{t1, t2}, 200, nil)
-	if err != nil {
-		fmt.Println("exec:", err)
-		return 1
+	fmt.Println("request good proof:", res.Receipts[0].Status, string(res.Receipts[0].Ret))
+	if len(args) > 0 {
+		res, err = w.Exec(w.IBTPTx(pier, harness.MkIBTP(from, to, 2, pb.IBTP_INTERCHAIN, 3), []byte{0, 2, 3}))
+		if err != nil {
+			fmt.Println(err)
+			return 1
+		}
+		fmt.Println("request bad proof:", res.Receipts[0].Status, string(res.Receipts[0].Ret))
 	}
-	for _, rc := range res.Receipts {
-		fmt.Println(" receipt", rc.Status, string(rc.Ret))
+	for _, m := range w.R.Surface() {
+		if m.CName == "Store" {
+			fmt.Println(m.CName, m.Name, m.In, m.Variadic, m.NumOut)
+		}
 	}
-	q := r.Query(st, "Get", pb.String("k"))
-	fmt.Println("Store.Get(k) =", q.Status, string(q.Ret))
-	r.Close()
+	fmt.Println("surface size", len(w.R.Surface()))
+	w.R.Close()
 	return 0
 }
